@@ -158,6 +158,18 @@ def run_c07(pid, tier):
         if vals != want:
             oracle_fail.append((h, "files added after one without an extension are published as %r, expected %r" % (vals, want), None))
     n_cases += len(special)
+    # (3c) two hashed additions whose names map to the same identifier (the module would not compile, but every name is still <stem>-<hash>.<ext>)
+    coll = [[("F", "a/site-v2.css", b"one"), ("F", "b/site_v2.css", b"two")], [("F", "x/logo.png", b"p1"), ("F", "y/logo.png", b"p2"), ("D", "logo.png", b"p3")],
+            [("D", "dup.js", b"d"), ("D", "dup.js", b"d")], [("D", "a b.txt", b"1"), ("F", "q/a-b.txt", b"2"), ("F", "r/a.b.txt", b"3")]]
+    for h, r in zip(coll, run_histories(coll)):
+        a, m = r["impl"], r["model"]
+        chk.count(impl_line(h).encode(), True)
+        if a.get("statics") != m.get("statics"): disagree.append((h, "statics.rs", "", ""))
+        got = re.findall(rb'\n  name: "((?:[^"\\]|\\.)*)",', unhexs(a.get("statics", "-")))
+        want = [split_name(op[1])[0] + b"-" + py_slug(op[2]) + b"." + split_name(op[1])[1] for op in h]
+        if got != want:
+            oracle_fail.append((h, "files whose names map to one identifier are published as %r, expected %r" % (got, want), None))
+    n_cases += len(coll)
     # (4) large contents, implementation against hashlib only (the model's MD5 runs at ~40 KB/s)
     if True:
         big = []
@@ -547,6 +559,24 @@ def run_c09(pid, tier):
                                     "the module does not list exactly the files added in this run, once each, ascending: %r, added %r" % (got, want), None)); break
             if "model" in run and run["model"].get("fs", {}).get(b"templates/statics.rs") not in (None, st):
                 disagree.append(("persistent OUT_DIR", "statics.rs on run %d" % (k + 1), st[-300:].decode("latin1"), ""))
+    # one directory looked at by two calls (add_files and add_files_as; a sub-directory first, then its parent): every call adds its files
+    dscen = []; dwant = []
+    fs2 = {"a.css": b"aa", "img/l.png": b"ll", "img/deep/d.svg": b"dd"}
+    for prog, names in [([('s',), ('g', 'st'), ('t', 'st', 'v1')], ["H:a.css", "v1/a.css", "v1/img/l.png", "v1/img/deep/d.svg"]),
+                        ([('s',), ('t', 'st', 'v1'), ('t', 'st', 'v2')], ["v1/a.css", "v1/img/l.png", "v1/img/deep/d.svg", "v2/a.css", "v2/img/l.png", "v2/img/deep/d.svg"]),
+                        ([('s',), ('g', 'st/img'), ('t', 'st', 's')], ["H:img/l.png", "s/a.css", "s/img/l.png", "s/img/deep/d.svg"]),
+                        ([('s',), ('t', 'st/img', 'i'), ('t', 'st', 'all'), ('g', 'st/img/deep')], ["i/l.png", "i/deep/d.svg", "all/a.css", "all/img/l.png", "all/img/deep/d.svg", "H:img/deep/d.svg"])]:
+        dscen.append([('W', 'st/' + n, c) for n, c in fs2.items()] + [('R', prog)]); dwant.append(names)
+    for names, sc, r in zip(dwant, dscen, build_lib.run_scenarios(dscen)):
+        run = [x for x in r["runs"] if x["kind"] == "R"][0]
+        chk.count(build_lib.scenario_line(sc).encode(), True)
+        st = (run["after"].get(b"templates/statics.rs") or (b"", ""))[0] or b""
+        want = sorted((split_name(n[2:])[0].rsplit(b"/", 1)[-1] + b"-" + py_slug(fs2[n[2:]]) + b"." + split_name(n[2:])[1]) if n.startswith("H:") else n.encode() for n in names)
+        got = sorted(re.findall(rb'\n  name: "((?:[^"\\]|\\.)*)",', st))
+        if run["status"] != "ok" or got != want:
+            oracle_fail.append((build_lib.scenario_line(sc), "one directory looked at by two calls: the module holds %r, the calls add %r" % (got, want), None))
+        elif "model" in run and run["model"].get("fs", {}).get(b"templates/statics.rs") not in (None, st):
+            disagree.append(([], "statics.rs of two calls over one directory", st[-300:].decode("latin1"), ""))
     for h in hist[:2] + hist[-1:]:
         chk.sample(dict(ops=[(op[0], op[1], op[2] if op[0] == "A" else len(op[2])) for op in h]))
     chk.cov["rule"] = ("file sets with pairwise distinct identifiers and url names drawn from prefix-colliding names %s plus random ones, through add_file / add_file_as / add_file_data in all orders (sets of 2-4) "
@@ -573,6 +603,9 @@ def run_c16(pid, tier):
     for nm in ["1.css", "12.3.4", "a..b", "trail.", "_.x", "__a.b_", "a.b.c.d.e", "0", "-.-", "~.~", "é.css", "ß9.²x", "日本.語"]:
         if split_name(nm): hist.append([("D", nm, b"")])
         hist.append([("A", "s/f.js", "to/" + nm, b"")])
+    # published names (add_file_as, add_files_as with a version-like prefix) that begin with a digit
+    for u in ["3.7.1/jquery.min.js", "404/index.html", "9", "0/0.0", "2x.png", "1-2_3"]:
+        hist.append([("A", "s/f.js", u, b"v"), ("D", "plain.css", b"p")])
     for _ in range(80 if tier == "quick" else 800):
         hist.append(distinct_history(rng, rng.randint(1, 6)))
     rs = run_histories(hist)
